@@ -205,7 +205,11 @@ fn quoted_case(rng: &mut vcore::prng::Rng) -> (String, String, String, char, Str
         4 => "f(".to_string(),
         _ => " \t".to_string(),
     };
-    let suffix = match rng.below(6) {
+    let suffix = match rng.below(if q == '[' { 8 } else { 6 }) {
+        // a bracket run ends at its first `]` (brackets have no doubled-delimiter escape): a second `]` and
+        // whatever follows it are outside
+        6 => "] = ?".to_string(),
+        7 => "]".to_string(),
         0 => String::new(),
         1 => " AND b = ?".to_string(),
         2 => "?".to_string(),
